@@ -45,6 +45,10 @@ type replacerCompiler struct {
 	dots     []token.Pos
 	dotAssoc map[token.Pos]token.Pos
 
+	// Positions of "..." found where they cannot reproduce anything: not
+	// in place of list elements or of a for header.
+	misplacedDots []token.Pos
+
 	patchStart, patchEnd token.Pos
 }
 
@@ -57,6 +61,8 @@ func newReplacerCompiler(fset *token.FileSet, meta *Meta, patchStart, patchEnd t
 		patchEnd:   patchEnd,
 	}
 }
+
+var dotsPtrType = reflect.TypeOf((*pgo.Dots)(nil))
 
 func (c *replacerCompiler) compile(v reflect.Value) Replacer {
 	if v.Kind() == reflect.Ptr && v.IsNil() {
@@ -90,6 +96,11 @@ func (c *replacerCompiler) compile(v reflect.Value) Replacer {
 		})
 	case goast.ForStmtPtrType:
 		return c.compileForStmt(v)
+	case dotsPtrType:
+		// The compilers of lists and for statements consume the "..."
+		// they support. One that gets here would end up in the Go AST.
+		c.misplacedDots = append(c.misplacedDots, v.Interface().(*pgo.Dots).Pos())
+		return ZeroReplacer{Type: v.Type()}
 	case goast.StarExprPtrType:
 		return starExprReplacer{Replacer: c.compileGeneric(v)}
 	case goast.FuncTypePtrType, goast.IndexListPtrType:
